@@ -52,6 +52,8 @@ for _pt in DATE_PATTERNS:
             c.setup = _setup
             c.timeout_s = 180
             c.max_paths = 60000
+            c.vc_chunks = 6 if "MMM" in pt else 1  # month names: hundreds of paths; spread the obligations over the pool
+            c.weight = 6 if "MMM" in pt else 1
             c.requires(lambda a: And(V.ld_y(a.value) >= 0, V.ld_y(a.value) <= 9999))
             c.returns(lambda a, r: And(r[0], same_date(r[1], a.value)) if r[1] is not None else False)
 
